@@ -201,7 +201,7 @@ def run(tier):
     cases = corpus.generate(rep, specs)
     rep.exhaustive = True
     if tier == "quick":
-        keep = {"elementwise": 16, "update_at": 10, "get_at": 8, "id": 8, "preserve": 4, "argfind": 4, "reduce": 2}
+        keep = {"elementwise": 16, "update_at": 25, "get_at": 8, "id": 8, "preserve": 4, "argfind": 4, "reduce": 2}
         cases = [c for i, c in enumerate(cases) if i % keep.get(c["fam"], 1) == 0]
     items = [{"case": c, "seed": common.seed() * 17 + i, "ops": OPS[c["fam"]] if tier == "thorough" else [OPS[c["fam"]][i % len(OPS[c["fam"]])]]} for i, c in enumerate(cases)]
     results = common.parallel_map("run_chunk", sys.modules[__name__], items)
